@@ -205,6 +205,29 @@ def _replay_q(ctx, cases, events, stats, only_groups=None, use='first'):
             ctx.violation(f'Q-vector kernels raised {type(e).__name__}' + ('' if gi % 2 == 0 else ' (non-default operand form)'),
                           {'exc': exc, 'b1': b1, 'quat': quat, 'form': form})
 
+        if returned and gi % 3 == 0:
+            # an ARRAY of incident beams (several source positions: the same direction at two lengths) with a dimension
+            # the scattered beam lacks ("scalar and array operands"): every slice is the answer for the single beam
+            try:
+                ib_src = sc.vectors(dims=['source'], values=np.array([b1, b1], dtype='float64') * np.array([[1.0], [2.0]]),
+                                    unit=unit_b)
+                sb0_ = sc.vectors(dims=['det'], values=b2s, unit=unit_s)
+                els = tof.Q_elements_from_wavelength(wavelength=lam, incident_beam=ib_src, scattered_beam=sb0_)
+                one = tof.Q_elements_from_wavelength(wavelength=lam, incident_beam=sc.vector(np.array(b1, dtype='float64'), unit=unit_b),
+                                                     scattered_beam=sb0_)
+                for n_ in ('Qx', 'Qy', 'Qz'):
+                    for k_ in (0, 1):
+                        a_, b_ = els[n_]['source', k_], one[n_]
+                        if set(a_.dims) != set(b_.dims) or not sc.allclose(
+                                a_.transpose(b_.dims), b_, rtol=sc.scalar(1e-6 if f32 else 1e-13),
+                                atol=sc.scalar(1e-6 if f32 else 1e-13, unit=b_.unit) * sc.abs(b_).max().value, equal_nan=True):
+                            ctx.violation('Q vector: slice of an array of incident beams differs from the single-beam answer',
+                                          {'b1': b1, 'form': form, 'component': n_, 'slice': k_})
+                            break
+            except Exception as e:  # noqa: BLE001
+                ctx.violation(f'Q-vector kernels raised {type(e).__name__} for an array of incident beams with a dimension '
+                              'the scattered beam lacks', {'exc': repr(e), 'b1': b1, 'form': form})
+
         def grid(v, vec=False):
             """values as [det, wavelength] (+ component) whatever the order / number of dims of the result"""
             dims = [d for d in ('det', 'wavelength') if d in v.dims]
